@@ -191,7 +191,9 @@ def check(run, prog):
     # the patterns are applied with match() on the rest of the source
     for fname in ("parse_integer_literal", "parse_float_literal"):
         fn = prog.method("Lexer", fname)
+        numeric = ("INT_LITERAL_PATTERN", "FLOAT_EXPONENT_LITERAL_PATTERN", "FLOAT_FRACTIONAL_LITERAL_PATTERN",
+                   "FLOAT_HEXADECIMAL_LITERAL_PATTERN")
         uses = [n for n in walk_fn(fn.node) if isinstance(n, ast.Call) and isinstance(n.func, ast.Attribute)
-                and n.func.attr in ("match", "search", "fullmatch") and "PATTERN" in text(n.func.value)]
+                and n.func.attr in ("match", "search", "fullmatch") and text(n.func.value) in numeric]
         run.ob("R-11.4", f"{fn.key}::match-at-position", bool(uses) and all(u.func.attr == "match" for u in uses),
                "a numeric pattern is not applied with match() at the current position", uses[0] if uses else fn.node)
